@@ -684,6 +684,8 @@ fn lex_line(
 							}
 							None =>
 							{
+								// No character follows the backslash.
+								source_offset_end -= 1;
 								let warning = LexedToken {
 									result: Err(
 										Error::UnexpectedTrailingBackslash,
